@@ -1056,3 +1056,329 @@ Proof.
       * exists z. rewrite L2; auto.
   - apply A.
 Qed.
+
+(* ================================================================== *)
+(* 7. queries: get_track_neighbors, has_track_at                        *)
+(* ================================================================== *)
+Definition tle st (a b : Z) : Prop := time_of st a <= time_of st b.
+
+Lemma insert_by_time_perm st x l : Permutation (x :: l) (insert_by_time st x l).
+Proof.
+  induction l as [|y r IH]; cbn [insert_by_time]; [apply Permutation_refl|].
+  destruct (time_of st x <? time_of st y); [apply Permutation_refl|].
+  eapply Permutation_trans; [apply perm_swap|]. now apply perm_skip.
+Qed.
+Lemma insert_by_time_sorted st x l : StronglySorted (tle st) l -> StronglySorted (tle st) (insert_by_time st x l).
+Proof.
+  induction l as [|y r IH]; cbn [insert_by_time]; intros Hs; [repeat constructor|].
+  apply StronglySorted_inv in Hs. destruct Hs as [Hr Hy].
+  destruct (Z.ltb_spec (time_of st x) (time_of st y)) as [Hlt|Hge].
+  - constructor; [constructor; assumption|]. constructor; [unfold tle; lia|].
+    eapply Forall_impl; [|exact Hy]. unfold tle. intros a Ha. lia.
+  - constructor; [now apply IH|]. apply Forall_forall. intros a Ha.
+    apply (Permutation_in _ (Permutation_sym (insert_by_time_perm st x r))) in Ha. destruct Ha as [<-|Ha].
+    + unfold tle. lia.
+    + rewrite Forall_forall in Hy. now apply Hy.
+Qed.
+Lemma sort_by_time_perm st l : Permutation l (sort_by_time st l).
+Proof.
+  unfold sort_by_time. rewrite <- (app_nil_r l) at 1. generalize (@nil Z) as acc.
+  induction l as [|x r IH]; intros acc; cbn [fold_left app]; [apply Permutation_refl|].
+  eapply Permutation_trans; [|apply IH]. eapply Permutation_trans; [apply Permutation_middle|].
+  apply Permutation_app_head. apply insert_by_time_perm.
+Qed.
+Lemma sort_by_time_sorted st l : StronglySorted (tle st) (sort_by_time st l).
+Proof.
+  unfold sort_by_time. assert (G : forall acc, StronglySorted (tle st) acc ->
+    StronglySorted (tle st) (fold_left (fun acc x => insert_by_time st x acc) l acc)).
+  { induction l as [|x r IH]; intros acc Ha; cbn [fold_left]; [exact Ha|]. apply IH. now apply insert_by_time_sorted. }
+  apply G. constructor.
+Qed.
+
+Definition best_before st (t : Z) (l : list Z) (p : option Z) : Prop :=
+  match p with
+  | Some n => In n l /\ time_of st n < t /\ forall m, In m l -> time_of st m < t -> time_of st m <= time_of st n
+  | None => forall m, In m l -> ~ time_of st m < t
+  end.
+Definition best_after st (t : Z) (l : list Z) (s : option Z) : Prop :=
+  match s with
+  | Some n => In n l /\ t < time_of st n /\ forall m, In m l -> t < time_of st m -> time_of st n <= time_of st m
+  | None => forall m, In m l -> ~ t < time_of st m
+  end.
+
+Lemma scan_neighbors_spec st t l : StronglySorted (tle st) l -> forall pred p s,
+  scan_neighbors st t l pred = (p, s) ->
+  ((p = pred /\ forall m, In m l -> ~ time_of st m < t) \/ (exists n, p = Some n /\ best_before st t l p)) /\
+  best_after st t l s.
+Proof.
+  induction l as [|c r IH]; intros Hs pred p s H; cbn [scan_neighbors] in H.
+  - inversion H; subst. split; [left; split; [reflexivity|intros m []]|intros m []].
+  - apply StronglySorted_inv in Hs. destruct Hs as [Hr Hc]. rewrite Forall_forall in Hc. unfold tle in Hc.
+    destruct (Z.ltb_spec (time_of st c) t) as [Hlt|Hge].
+    + destruct (IH Hr _ _ _ H) as [HP HS]. split.
+      * right. destruct HP as [[-> Hno]|(n & -> & Hi & Hn & Hmax)].
+        -- exists c. split; [reflexivity|]. split; [now left|split; [exact Hlt|]].
+           intros m [<-|Hm] Hmt; [lia|]. exfalso. now apply (Hno m).
+        -- exists n. split; [reflexivity|]. split; [now right|split; [exact Hn|]].
+           intros m [<-|Hm] Hmt; [now apply Hc|now apply Hmax].
+      * destruct s as [n|]; cbn in *.
+        -- destruct HS as (Hi & Hn & Hmin). split; [now right|split; [exact Hn|]].
+           intros m [<-|Hm] Hmt; [lia|now apply Hmin].
+        -- intros m [<-|Hm]; [lia|now apply HS].
+    + destruct (Z.gtb_spec (time_of st c) t) as [Hgt|Hle].
+      * inversion H; subst. split.
+        -- left. split; [reflexivity|]. intros m [<-|Hm]; [lia|]. specialize (Hc m Hm). lia.
+        -- cbn. split; [now left|split; [exact Hgt|]]. intros m [<-|Hm] _; [lia|now apply Hc].
+      * destruct (IH Hr _ _ _ H) as [HP HS]. split.
+        -- destruct HP as [[-> Hno]|(n & -> & Hi & Hn & Hmax)].
+           ++ left. split; [reflexivity|]. intros m [<-|Hm]; [lia|now apply Hno].
+           ++ right. exists n. split; [reflexivity|]. split; [now right|split; [exact Hn|]].
+              intros m [<-|Hm] Hmt; [lia|now apply Hmax].
+        -- destruct s as [n|]; cbn in *.
+           ++ destruct HS as (Hi & Hn & Hmin). split; [now right|split; [exact Hn|]].
+              intros m [<-|Hm] Hmt; [lia|now apply Hmin].
+           ++ intros m [<-|Hm]; [lia|now apply HS].
+Qed.
+
+Lemma best_before_perm st t l l' p : (forall x, In x l <-> In x l') -> best_before st t l p -> best_before st t l' p.
+Proof.
+  intros Hl. destruct p as [n|]; cbn.
+  - intros (A & B & C). split; [now apply Hl|split; [exact B|]]. intros m Hm. apply C. now apply Hl.
+  - intros A m Hm. apply A. now apply Hl.
+Qed.
+Lemma best_after_perm st t l l' s : (forall x, In x l <-> In x l') -> best_after st t l s -> best_after st t l' s.
+Proof.
+  intros Hl. destruct s as [n|]; cbn.
+  - intros (A & B & C). split; [now apply Hl|split; [exact B|]]. intros m Hm. apply C. now apply Hl.
+  - intros A m Hm. apply A. now apply Hl.
+Qed.
+
+(* [st'] is [st] except that the lookup list of track T was reordered *)
+Definition reordered (T : Z) (st st' : state) : Prop :=
+  g st' = g st /\ seg st' = seg st /\ ft st' = ft st /\ undo_stack st' = undo_stack st /\
+  redo_stack st' = redo_stack st /\ rlog st' = rlog st /\ nctr st' = nctr st /\
+  lin_book (bk st') = lin_book (bk st) /\ max_trk (bk st') = max_trk (bk st) /\ max_lin (bk st') = max_lin (bk st) /\
+  keys (trk_book (bk st')) = keys (trk_book (bk st)) /\
+  (forall T', T' <> T -> lookup T' (trk_book (bk st')) = lookup T' (trk_book (bk st))) /\
+  (forall l, lookup T (trk_book (bk st)) = Some l -> exists l', lookup T (trk_book (bk st')) = Some l' /\ Permutation l l').
+Lemma reordered_refl T st : reordered T st st.
+Proof. unfold reordered. do 11 (split; [reflexivity|]). split; [reflexivity|]. intros l E. exists l. split; [exact E|apply Permutation_refl]. Qed.
+
+(* the scan of the graph the query is compared with *)
+Definition track_nodes st (T : Z) (n : Z) : Prop := is_node st n /\ trk st n = Some T.
+Definition pred_in_track st (T t : Z) (p : option Z) : Prop :=
+  match p with
+  | Some n => track_nodes st T n /\ time_of st n < t /\ forall m, track_nodes st T m -> time_of st m < t -> time_of st m <= time_of st n
+  | None => forall m, track_nodes st T m -> ~ time_of st m < t
+  end.
+Definition succ_in_track st (T t : Z) (s : option Z) : Prop :=
+  match s with
+  | Some n => track_nodes st T n /\ t < time_of st n /\ forall m, track_nodes st T m -> t < time_of st m -> time_of st n <= time_of st m
+  | None => forall m, track_nodes st T m -> ~ t < time_of st m
+  end.
+
+Theorem track_neighbors_spec st T t st' p s :
+  W_book st -> track_neighbors st T t = (st', (p, s)) ->
+  reordered T st st' /\ W_book st' /\ pred_in_track st T t p /\ succ_in_track st T t s.
+Proof.
+  intros [WT WL] H. assert (WT0 := WT). rewrite book_ok_bok in WT. destruct WT as (Hk & Hl & Hn).
+  unfold track_neighbors in H. destruct (lookup T (trk_book (bk st))) as [l|] eqn:El.
+  - destruct (Hl T l El) as (Hne & Hnd & Hin).
+    assert (Hsort : StronglySorted (tle st) (sort_by_time st l)) by apply sort_by_time_sorted.
+    assert (Hperm : Permutation l (sort_by_time st l)) by apply sort_by_time_perm.
+    assert (Hmem : forall x, In x (sort_by_time st l) <-> track_nodes st T x).
+    { intros x. unfold track_nodes. rewrite <- Hin. split; apply Permutation_in; [now apply Permutation_sym|exact Hperm]. }
+    destruct l as [|x0 l0]; [now contradiction Hne|].
+    remember (x0 :: l0) as l eqn:Heql. clear Heql x0 l0.
+    inversion H as [[Hst Hscan]]. clear H.
+    destruct (scan_neighbors_spec st t _ Hsort None p s Hscan) as [HP HS].
+    split; [|split; [|split]].
+    + unfold reordered. cbn. do 10 (split; [reflexivity|]).
+      split; [apply keys_set_in; eapply lookup_Some_keys; eauto|].
+      split; [intros T' HT; now apply lookup_set_neq|]. intros l1 E1. rewrite El in E1. injection E1 as <-.
+      exists (sort_by_time st l). split; [apply lookup_set_eq|exact Hperm].
+    + split; rewrite book_ok_bok; cbn.
+      * apply (bok_permute (is_node st) (trk_book (bk st)) (trk st) (max_trk (bk st)) T l); [|exact El|exact Hperm].
+        split; [exact Hk|split; [exact Hl|exact Hn]].
+      * exact WL.
+    + destruct HP as [[-> Hno]|(n & -> & Hb)].
+      * cbn. intros m Hm. apply Hno. now apply Hmem.
+      * cbn in Hb |- *. destruct Hb as (A & B & C). split; [now apply Hmem|split; [exact B|]].
+        intros m Hm. apply C. now apply Hmem.
+    + destruct s as [n|]; cbn in HS |- *.
+      * destruct HS as (A & B & C). split; [now apply Hmem|split; [exact B|]]. intros m Hm. apply C. now apply Hmem.
+      * intros m Hm. apply HS. now apply Hmem.
+  - injection H as <- <- <-. split; [apply reordered_refl|]. split; [split; assumption|].
+    assert (Hnone : forall m, ~ track_nodes st T m).
+    { intros m [A B]. destruct (Hn m T A B) as [Hh _]. unfold haskey in Hh. rewrite El in Hh. discriminate. }
+    split; cbn; intros m Hm; exfalso; exact (Hnone m Hm).
+Qed.
+
+Theorem has_track_at_spec st T t :
+  W_book st -> (has_track_at st T t = true <-> exists n, is_node st n /\ trk st n = Some T /\ time_of st n = t).
+Proof.
+  intros [WT _]. rewrite book_ok_bok in WT. destruct WT as (Hk & Hl & Hn). unfold has_track_at.
+  destruct (lookup T (trk_book (bk st))) as [l|] eqn:El.
+  - destruct (Hl T l El) as (_ & _ & Hin). rewrite existsb_exists. split.
+    + intros (n & Hi & E). apply Z.eqb_eq in E. apply Hin in Hi. exists n. tauto.
+    + intros (n & A & B & C). exists n. split; [apply Hin; tauto|now apply Z.eqb_eq].
+  - split; [discriminate|]. intros (n & A & B & _). destruct (Hn n T A B) as [Hh _]. unfold haskey in Hh.
+    rewrite El in Hh. discriminate.
+Qed.
+
+(* ================================================================== *)
+(* 8. fresh ids                                                        *)
+(* ================================================================== *)
+Theorem next_trk_fresh st : W_book st -> forall n, is_node st n -> trk st n <> Some (next_trk st).
+Proof.
+  intros [WT _] n Hn E. rewrite book_ok_bok in WT. destruct WT as (_ & _ & H). destruct (H n _ Hn E) as [_ Hle].
+  unfold next_trk in Hle. lia.
+Qed.
+Theorem next_lin_fresh st : W_book st -> forall n, is_node st n -> lin st n <> Some (next_lin st).
+Proof.
+  intros [_ WL] n Hn E. rewrite book_ok_bok in WL. destruct WL as (_ & _ & H). destruct (H n _ Hn E) as [_ Hle].
+  unfold next_lin in Hle. lia.
+Qed.
+
+(* if the loop stops on a used id, it has tested [fuel] pairwise distinct used ids *)
+Lemma skip_used_fuel st : forall fuel id c id' c',
+  id < c -> skip_used fuel st id c = (id', c') -> has_node st id' = true ->
+  exists l, NoDup l /\ length l = fuel /\ forall x, In x l -> (x = id \/ c <= x) /\ has_node st x = true.
+Proof.
+  induction fuel as [|f IH]; intros id c id' c' Hlt H Hh; cbn [skip_used] in H.
+  - exists []. split; [constructor|split; [reflexivity|intros x []]].
+  - destruct (has_node st id) eqn:Ei; [|inversion H; subst; congruence].
+    destruct (IH c (c + 1) id' c' ltac:(lia) H Hh) as (l & Hnd & Hlen & Hl).
+    exists (id :: l). split; [|split; [cbn; now rewrite Hlen|]].
+    + constructor; [|exact Hnd]. intros Hi. destruct (Hl id Hi) as [[E|E] _]; lia.
+    + intros x [<-|Hx]; [split; [now left|exact Ei]|]. destruct (Hl x Hx) as [[E|E] Hx2]; (split; [right; lia|exact Hx2]).
+Qed.
+
+Lemma skip_used_spec st id c id' c' :
+  id < c -> skip_used (S (length (nodes (g st)))) st id c = (id', c') ->
+  ~ is_node st id' /\ c <= c' /\ ((id' = id /\ c' = c) \/ (c <= id' /\ id' < c')).
+Proof.
+  intros Hlt H. split.
+  - apply has_node_false. destruct (has_node st id') eqn:Eh; [|reflexivity]. exfalso.
+    destruct (skip_used_fuel st _ _ _ _ _ Hlt H Eh) as (l & Hnd & Hlen & Hl).
+    assert (Hincl : incl l (node_ids st)) by (intros x Hx; apply has_node_is_node; apply Hl, Hx).
+    apply (NoDup_incl_length Hnd) in Hincl. unfold node_ids, keys in Hincl. rewrite map_length in Hincl. lia.
+  - revert id c Hlt H. generalize (S (length (nodes (g st)))) as fuel.
+    induction fuel as [|f IH]; intros id c Hlt H; cbn [skip_used] in H.
+    + inversion H; subst. split; [lia|now left].
+    + destruct (has_node st id); [|inversion H; subst; split; [lia|now left]].
+      destruct (IH c (c + 1) ltac:(lia) H) as [A [[-> ->]|B]]; split; try lia; right; lia.
+Qed.
+
+Lemma new_ids_loop_spec st : forall ids c ids' c',
+  NoDup ids -> (forall i, In i ids -> i < c) -> new_ids_loop st ids c = (ids', c') ->
+  length ids' = length ids /\ NoDup ids' /\ c <= c' /\
+  forall x, In x ids' -> ~ is_node st x /\ (In x ids \/ (c <= x /\ x < c')).
+Proof.
+  induction ids as [|i r IH]; intros c ids' c' Hnd Hlt H; cbn [new_ids_loop] in H.
+  - inversion H; subst. split; [reflexivity|split; [constructor|split; [lia|intros x []]]].
+  - destruct (skip_used (S (length (nodes (g st)))) st i c) as [i1 c1] eqn:Es.
+    destruct (new_ids_loop st r c1) as [r1 c2] eqn:El. inversion H; subst. clear H.
+    inversion Hnd as [|? ? Hi Hr]; subst.
+    destruct (skip_used_spec st i c i1 c1 (Hlt i (or_introl eq_refl)) Es) as (Hfresh & Hc & Hcase).
+    destruct (IH c1 r1 c' Hr (fun x Hx => Z.lt_le_trans _ _ _ (Hlt x (or_intror Hx)) Hc) El) as (Hlen & Hnd1 & Hc1 & Hall).
+    split; [cbn; now rewrite Hlen|]. split; [|split; [lia|]].
+    + constructor; [|exact Hnd1]. intros Hi1. destruct (Hall i1 Hi1) as [_ [Hir|Hrange]].
+      * destruct Hcase as [[-> _]|[Hge _]]; [contradiction|]. specialize (Hlt i1 (or_intror Hir)). lia.
+      * destruct Hcase as [[-> ->]|[_ Hlt1]]; [|lia]. specialize (Hlt i (or_introl eq_refl)). lia.
+    + intros x [<-|Hx].
+      * split; [exact Hfresh|]. destruct Hcase as [[-> _]|[A B]]; [left; now left|right; lia].
+      * destruct (Hall x Hx) as [A [B|B]]; (split; [exact A|]); [left; now right|right; lia].
+Qed.
+
+Theorem get_new_node_ids_spec st k st' ids :
+  get_new_node_ids st k = (st', ids) ->
+  NoDup ids /\ length ids = k /\ (forall i, In i ids -> ~ is_node st i) /\
+  g st' = g st /\ bk st' = bk st /\ nctr st <= nctr st'.
+Proof.
+  unfold get_new_node_ids.
+  destruct (new_ids_loop st (map (fun i => nctr st + Z.of_nat i) (seq 0 k)) (nctr st + Z.of_nat k)) as [ids' c] eqn:El.
+  intros H. inversion H; subst. clear H.
+  apply new_ids_loop_spec in El.
+  - destruct El as (Hlen & Hnd & Hc & Hall). rewrite map_length, seq_length in Hlen.
+    split; [exact Hnd|split; [exact Hlen|split; [intros i Hi; apply Hall, Hi|]]]. cbn. split; [reflexivity|split; [reflexivity|lia]].
+  - apply FinFun.Injective_map_NoDup; [intros a b E; lia|apply seq_NoDup].
+  - intros i Hi. apply in_map_iff in Hi. destruct Hi as (j & <- & Hj). apply in_seq in Hj. lia.
+Qed.
+
+(* ================================================================== *)
+(* 9. on a forward-in-time forest the walk visits every node once, and *)
+(*    an edge-wise constant lineage id is constant on the visited set  *)
+(* ================================================================== *)
+Inductive reach (st : state) : Z -> Z -> Prop :=
+  | reach_refl u : reach st u u
+  | reach_step u v w : reach st u v -> edge st v w -> reach st u w.
+
+Lemma reach_left st u v w : edge st u v -> reach st v w -> reach st u w.
+Proof. intros He H. induction H as [v|v x y _ IH Hxy]; [eapply reach_step; [apply reach_refl|exact He]|eapply reach_step; eauto]. Qed.
+
+Lemma reach_time st : (forall u v, edge st u v -> time_of st u < time_of st v) ->
+  forall u v, reach st u v -> time_of st u <= time_of st v.
+Proof. intros Ht u v H. induction H as [u|u x y _ IH Hxy]; [lia|]. specialize (Ht x y Hxy). lia. Qed.
+
+Lemma NoDup_flat_map (f : Z -> list Z) (l : list Z) :
+  NoDup l -> (forall a, In a l -> NoDup (f a)) ->
+  (forall a b x, In a l -> In b l -> In x (f a) -> In x (f b) -> a = b) -> NoDup (flat_map f l).
+Proof.
+  induction l as [|a r IH]; intros Hnd Hf Hd; cbn [flat_map]; [constructor|].
+  inversion Hnd as [|? ? Ha Hr]; subst. apply NoDup_app_intro.
+  - apply Hf. now left.
+  - apply IH; [exact Hr|intros b Hb; apply Hf; now right|].
+    intros b c x Hb Hc. apply Hd; now right.
+  - intros x Hx Hx2. apply in_flat_map in Hx2. destruct Hx2 as (b & Hb & Hxb).
+    assert (a = b) by (apply (Hd a b x); [now left|now right|exact Hx|exact Hxb]). subst b. contradiction.
+Qed.
+
+Lemma bfs_forest st :
+  W_dict st -> (forall u u' v, edge st u v -> edge st u' v -> u = u') ->
+  (forall u v, edge st u v -> time_of st u < time_of st v) ->
+  forall fuel curr vis, NoDup curr -> (forall a b, In a curr -> In b curr -> reach st a b -> a = b) ->
+  bfs fuel st curr = Some vis -> NoDup vis /\ forall n, In n vis -> exists c, In c curr /\ reach st c n.
+Proof.
+  intros WD Hin Htime. induction fuel as [|f IH]; intros curr vis Hnd Hanti H; destruct curr as [|c0 cs]; cbn [bfs] in H;
+    try (inversion H; subst; split; [constructor|intros n []]); try discriminate.
+  remember (c0 :: cs) as curr eqn:Ecurr. clear Ecurr c0 cs.
+  destruct (bfs f st (flat_map (successors st) curr)) as [r|] eqn:Er; [|discriminate]. inversion H; subst. clear H.
+  assert (Hcyc : forall a x, edge st a x -> reach st x a -> False).
+  { intros a x He Hr. pose proof (Htime a x He). pose proof (reach_time st Htime x a Hr). lia. }
+  assert (Hndn : NoDup (flat_map (successors st) curr)).
+  { apply NoDup_flat_map; [exact Hnd|intros a _; apply (wd_adj_nodup st WD a)|].
+    intros a b x _ _ Ha Hb. apply (Hin a b x); now apply edge_successors. }
+  assert (Hantin : forall v w, In v (flat_map (successors st) curr) -> In w (flat_map (successors st) curr) -> reach st v w -> v = w).
+  { (* the next level is an antichain *)
+    intros v w Hv Hw Hvw. apply in_flat_map in Hv. destruct Hv as (a & Ha & Hav). apply in_flat_map in Hw. destruct Hw as (b & Hb & Hbw).
+    apply edge_successors in Hav. apply edge_successors in Hbw.
+    inversion Hvw as [|? p ? Hvp Hpw]; subst; [reflexivity|]. exfalso.
+    assert (p = b) by (apply (Hin p b w); assumption). subst p.
+    assert (a = b) by (apply Hanti; [exact Ha|exact Hb|eapply reach_left; eauto]). subst b.
+    exact (Hcyc a v Hav Hvp). }
+  destruct (IH _ _ Hndn Hantin Er) as [Hndr Hreach].
+  assert (Hdown : forall n, In n r -> exists a, In a curr /\ reach st a n /\ exists x, edge st a x /\ reach st x n).
+    { intros n Hn. destruct (Hreach n Hn) as (x & Hx & Hxn). apply in_flat_map in Hx. destruct Hx as (a & Ha & Hax).
+    apply edge_successors in Hax. exists a. split; [exact Ha|split; [eapply reach_left; eauto|exists x; auto]]. }
+  split.
+  - apply NoDup_app_intro; [exact Hnd|exact Hndr|]. intros n Hn Hn2.
+    destruct (Hdown n Hn2) as (a & Ha & Han & x & Hax & Hxn).
+    assert (a = n) by (apply Hanti; assumption). subst a. exact (Hcyc n x Hax Hxn).
+  - intros n Hn. apply in_app_iff in Hn. destruct Hn as [Hn|Hn]; [exists n; split; [exact Hn|apply reach_refl]|].
+    destruct (Hdown n Hn) as (a & Ha & Han & _). exists a. auto.
+Qed.
+
+Theorem upd_track_W_book st start newT newL b st' :
+  cfg_ok st -> W_dict st -> W_forest st -> (forall u v, edge st u v -> lin st u = lin st v) -> W_book st ->
+  do_upd_track st start newT newL = Ok b st' -> W_book st'.
+Proof.
+  intros C WD WF Hl1 WB H. apply (upd_track_W_book_vis st start newT newL b st' C WD WB H).
+  intros vis Eb. split.
+  - apply (proj1 (bfs_forest st WD (wf_in st WF) (wf_time st WF) (S (length (nodes (g st)))) [start] vis
+        ltac:(constructor; [intros []|constructor]) ltac:(intros a b' [<-|[]] [<-|[]] _; reflexivity) Eb)).
+  - intros _. apply (bfs_inv (fun n => lin st n = lin st start) st) with (fuel := S (length (nodes (g st)))) (curr := [start]).
+    + intros u v Hu Hv. rewrite <- Hu. symmetry. apply Hl1. now apply edge_successors.
+    + intros c [<-|[]]. reflexivity.
+    + exact Eb.
+Qed.
